@@ -679,6 +679,9 @@ def run(ctx):
         if m3:
             nb = m3.group("n")
             ok = f"{v}&=2**{bl}-1" in src and re.search(rf"for(?P<i>\w+)inrange\({nb}\):\n\s*(?P<o>\w+)\[(?P=i)\]={v}&255\n\s*{v}>>=8", src) is not None
+            # the same octets without consuming the value: out[i] = (value >> (i * 8)) & 0xFF
+            ok = ok or (f"{v}&=2**{bl}-1" in src and re.search(
+                rf"for(?P<i>\w+)inrange\({nb}\):\n\s*(?P<o>\w+)\[(?P=i)\]={v}>>(?:(?P=i)\*8|8\*(?P=i))&255\n", src) is not None and f"{v}>>=" not in src)
     ctx.ob(R, rel, "Serializer._unsigned_to_bytes :: value masked to bit_length bits, ceil(bit_length / 8) bytes, least significant first", ok, "", f.lineno if f else None)
     g = D.get("_unsigned_from_bytes")
     src = ast.unparse(g).replace(" ", "") if g else ""
@@ -687,6 +690,11 @@ def run(ctx):
         xa, bl = g.args.args[-2].arg, g.args.args[-1].arg
         m4 = re.search(rf"(?P<n>\w+)=\({bl}\+7\)//8\n", src)
         m5 = re.search(rf"(?P<m>\w+)=2\*\*\({bl}%8\)-1if{bl}%8!=0else255\n", src)
+        if m4 and not m5:
+            # the width of the top octet as `bit_length % 8 or 8`
+            m5b = re.search(rf"(?P<w>\w+)={bl}%8or8\n", src)
+            if m5b:
+                m5 = re.search(rf"(?P<m>\w+)=2\*\*{m5b.group('w')}-1\n", src)
         if m4 and m5:
             nb, mk = m4.group("n"), m5.group("m")
             m6 = re.search(rf"(?P<last>\w+)={nb}-1\n", src)
@@ -694,6 +702,10 @@ def run(ctx):
                 last = m6.group("last")
                 ok = re.search(rf"for(?P<i>\w+)inrange\({last}\):\n\s*(?P<o>\w+)\|=int\({xa}\[(?P=i)\]\)<<(?P=i)\*8", src) is not None and \
                     re.search(rf"\w+\|=\(int\({xa}\[{last}\]\)&{mk}\)<<{last}\*8", src) is not None
+                # the low octets as a sum of disjoint terms, the masked top octet OR-ed on
+                msum = re.search(rf"(?P<lo>\w+)=sum\(\(?int\({xa}\[(?P<i>\w+)\]\)<<(?P=i)\*8for(?P=i)inrange\({last}\)\)?\)\n", src)
+                if not ok and msum:
+                    ok = re.search(rf"\w+={msum.group('lo')}\|\(int\({xa}\[{last}\]\)&{mk}\)<<{last}\*8", src) is not None
     ctx.ob(R, rel, "Deserializer._unsigned_from_bytes :: bytes combined least significant first, the last one masked to bit_length % 8 bits", ok, "", g.lineno if g else None)
 
     # ---- ZEROEXT ---------------------------------------------------------------------------------------------
@@ -706,12 +718,15 @@ def run(ctx):
         tries = [n_ for n_ in ast.walk(gb) if isinstance(n_, ast.Try)]
         ok = any(any(h.type is not None and ast.unparse(h.type) == "IndexError" and any(isinstance(r, ast.Return) and ast.unparse(r.value) == "0" for r in h.body) for h in t_.handlers)
                  for t_ in tries)
+        # ... or by an explicit range test in front of the access: `if index >= len(self._buf): return 0`
+        ok = ok or any(isinstance(i_, ast.If) and ast.unparse(i_.test).replace(" ", "") in (f"{idx}>=len(self._buf)", f"len(self._buf)<={idx}", f"not{idx}<len(self._buf)")
+                       and any(isinstance(r, ast.Return) and ast.unparse(r.value) == "0" for r in i_.body) for i_ in gb.body)
         neg = any(isinstance(i_, ast.If) and ast.unparse(i_.test).replace(" ", "") == f"{idx}<0" and any(isinstance(r, ast.Raise) for r in i_.body) for i_ in gb.body)
         ctx.ob(R, rel, "ZeroExtendingBuffer.get_byte :: a negative index is refused (it would read from the end)", neg, "", gb.lineno)
     ctx.ob(R, rel, "ZeroExtendingBuffer.get_byte :: out-of-range read returns 0", ok, "", gb.lineno if gb else None)
     gs = Z.get("get_unsigned_slice")
     src = ast.unparse(gs).replace(" ", "") if gs else ""
-    ok = "ifnot0<=left<=right:" in src and "count=int(right-left)" in src and "iflen(out)<count:" in src and \
+    ok = ("ifnot0<=left<=right:" in src or "ifleft<0orright<left:" in src or "ifright<leftorleft<0:" in src) and "count=int(right-left)" in src and "iflen(out)<count:" in src and \
         "numpy.concatenate((out,numpy.zeros(count-len(out),dtype=Byte)))" in src
     ctx.ob(R, rel, "ZeroExtendingBuffer.get_unsigned_slice :: bounds refused unless 0 <= left <= right; result right-padded with zeros to right - left", ok, "", gs.lineno if gs else None)
     fb = Z.get("fork_bytes")
